@@ -10,6 +10,28 @@ use serde_json::json;
 pub struct C15 {
     sets: Vec<(L, String, Vec<char>, u32, u32)>,
     inv: Vec<Vec<(char, char, char)>>,
+    /// long texts: every e-commerce title, plain and with the language's accents / awkward characters woven in
+    long: Vec<String>,
+}
+
+/// Weave accents, capitals, NULs and odd separators into a real title, deterministically per index.
+pub fn decorate(l: L, title: &str, k: u64) -> String {
+    let acc: Vec<char> = crate::refs::frozen_reduce(l).iter().filter_map(|(f, _)| f.chars().next()).collect();
+    let odd = [NUL, NBSP, COMB_ACUTE, COMB_DIAERESIS, QUOTE, TITLECASE, LOWER_EXPANDS, '-', '\u{2028}'];
+    let mut out = String::new();
+    for (i, c) in title.chars().enumerate() {
+        let r = (i as u64).wrapping_mul(2654435761).wrapping_add(k.wrapping_mul(40503)) % 11;
+        match r {
+            0 if !acc.is_empty() => out.push(acc[(i + k as usize) % acc.len()]),
+            1 => {
+                out.push(c);
+                out.push(odd[(i + k as usize) % odd.len()]);
+            }
+            2 => out.extend(c.to_uppercase()),
+            _ => out.push(c),
+        }
+    }
+    out
 }
 
 /// The 12-symbol adversarial alphabet of DESIGN.md §6 C15, per language.
@@ -48,7 +70,7 @@ impl C15 {
             sets.push((l, format!("exotic28<={}", tier.pick(3, 4)), exotic(), 0, if n >= 6 { tier.pick(3, 4) } else { 3 }));
         }
         let inv = LANGS.iter().map(|l| with_lang(*l, |lang| compose_inventory(lang))).collect();
-        C15 { sets, inv }
+        C15 { sets, inv, long: crate::doms::corpus_ecommerce_titles() }
     }
 }
 
@@ -123,12 +145,21 @@ pub fn check_text(t: &TextOwn, input: &[char], inv: &[(char, char, char)], is_qu
 
 impl Prop for C15 {
     fn doms(&self) -> Vec<Dom> {
-        self.sets.iter().map(|(l, name, fam, lo, hi)| Dom::new(format!("{}/{}", l.tag(), name), seqs_len(fam.len() as u64, *lo, *hi), 20000)).collect()
+        let mut d: Vec<Dom> = self.sets.iter().map(|(l, name, fam, lo, hi)| Dom::new(format!("{}/{}", l.tag(), name), seqs_len(fam.len() as u64, *lo, *hi), 20000)).collect();
+        for l in LANGS {
+            d.push(Dom::new(format!("{}/long texts: e-commerce titles plain + 3 decorated variants", l.tag()), 4 * self.long.len() as u64, 2000));
+        }
+        d
     }
     fn run(&self, dom: usize, idx: u64, cx: &mut Cx) {
-        let (l, _, fam, lo, hi) = &self.sets[dom];
-        let l = *l;
-        let s = string_at(fam, *lo, *hi, idx);
+        let (l, s) = if dom >= self.sets.len() {
+            let l = LANGS[dom - self.sets.len()];
+            let t = &self.long[(idx / 4) as usize];
+            (l, if idx % 4 == 0 { t.clone() } else { decorate(l, t, idx % 4) })
+        } else {
+            let (l, _, fam, lo, hi) = &self.sets[dom];
+            (*l, string_at(fam, *lo, *hi, idx))
+        };
         let input = chars(&s);
         cx.state();
         for is_query in [false, true] {
